@@ -5,6 +5,7 @@ import Regatta.Driver.FsmMode
 import Regatta.Driver.LogMode
 import Regatta.Driver.MetaMode
 import Regatta.Driver.QueueMode
+import Regatta.Driver.WireMode
 /-
   Model driver: one operation per input line, one answer per output line.
   usage: driver <mode> < ops.txt > model.txt
@@ -31,6 +32,7 @@ def main (args : List String) : IO UInt32 := do
   | ["catalog"] => loop stdin stdout Driver.MetaMode.cstep ({} : Driver.MetaMode.CSt)
   | ["queue"] => loop stdin stdout Driver.QueueMode.step ({} : Driver.QueueMode.St)
   | ["heap"] => loop stdin stdout Driver.QueueMode.hstep ([] : Queue.Heap)
+  | ["wire"] => loop stdin stdout Driver.WireMode.step ()
   | _ => IO.eprintln "usage: driver <mode>"; return 2
   stdout.flush
   return 0
